@@ -150,14 +150,7 @@ def run(ctx, R, tier):
         ok = fa.get(k) == fb.get(k) and (k not in expect or fa.get(k) == expect[k]) and fa.get(k) not in (None, [])
         R.check(ok, 'B.C09.sib', k, 'static and streaming process() disagree on %s: %s vs %s' % (k, fa.get(k), fb.get(k)),
                 detail={'feature': k, 'value': fa.get(k)})
-    # state phase: streaming has extra leading/trailing gates; the common subsequence must be the static sequence
-    sa = fa['state_phase_all']
-    sb = [e for e in fb['state_phase_all']]
-    want = ['psm.update', 'mirror', 'start.update', 'mark_stopped', 'mirror', 'start.ne', 'is_advancing']
-    R.check(sa == want, 'B.C09.sib', 'state-phase:static', 'static state phase is %s' % sa, detail={'sequence': sa})
-    # streaming: [mark_stopped, mirror] (error gate) + want
-    R.check(sb == ['mark_stopped', 'mirror'] + want, 'B.C09.sib', 'state-phase:streaming',
-            'streaming state phase is %s (expected the error gate followed by the static sequence)' % sb, detail={'sequence': sb})
+    state_phase(F, R, fa=fa, fb=fb)
     # whitelisted differences
     R.check(fa['rate_sanitiser'] == ['abs'] and fb['rate_sanitiser'] == ['max0'], 'B.C09.sib', 'whitelist:rate',
             'playback-rate handling is %s / %s (documented: static plays backwards through abs(), streaming clamps at 0)' % (fa['rate_sanitiser'], fb['rate_sanitiser']),
@@ -175,6 +168,8 @@ def run(ctx, R, tier):
             detail='every iteration stores (SRC * fade * volume).panned(panning)')
 
     frame_source(F, R)
+    ring_halves(F, R)
+    settings_verbatim(F, R)
     seek_callers(F, R)
     end_rule(F, R)
     end_after_step(F, R)
@@ -263,14 +258,14 @@ def shape(d):
     return ops
 
 
-def end_rule(F, R):
+def end_rule(F, R, rule='B.C09.end'):
     """A streaming sound ends where the static sound ends: the decoder declares the end of the data (`reached_end`) only when
     the shared Transport logic has stopped playing (the same `increment_position` the static sound uses) and after the frame
     of that step has been pushed -- never on a position test of its own, which would end the sound a frame earlier or later
     than the static sound for start positions at or past the end."""
     DS = 'sound::streaming::sound::decode_scheduler::DecodeScheduler::<Error>'
     b = F.inlined_view(DS + '::run', depth=1, pred=lambda hp: hp.startswith(DS + '::') and not hp.endswith(('::frame_at_index', '::seek_to', '::seek_by', '::seek_to_index')))
-    if not R.check(b is not None, 'B.C09.end', 'anchor', 'DecodeScheduler::run not found'):
+    if not R.check(b is not None, rule, 'anchor', 'DecodeScheduler::run not found'):
         return
     stores = [x for x, t in b.calls() if (callee_path(t) or '').endswith('::store') and 'reached_end' in describe(b, t['args'][0], depth=6)]
     pushes = [x for x, t in b.calls() if (callee_path(t) or '').endswith('rtrb::Producer::<T>::push')]
@@ -283,7 +278,7 @@ def end_rule(F, R):
             if t['k'] == 'switch' and b.dominates(g, stores[0]) and describe(b, t['op'], depth=3, at=g).endswith('transport.playing'):
                 f = dict(t['targets']).get('0')
                 gate = f is not None and b.dominates(f, stores[0])
-    R.check(ok and gate, 'B.C09.end', 'reached_end',
+    R.check(ok and gate, rule, 'reached_end',
             'the decoder raises reached_end %d time(s) / not after pushing the frame of the step / not under `!transport.playing`: the '
             'streaming sound would end at a different frame than a static sound of the same audio' % len(stores),
             detail='push(frame) ≺ if !transport.playing { reached_end.store(true) }, once', where=b.file)
@@ -316,6 +311,68 @@ def seek_callers(F, R):
                         '%s calls %s: a seek is performed only for a seek command (from the command-reading function or another seek method)'
                         % (owner, cp), detail={'caller': owner, 'callee': cp}, where=b.where(bb))
     R.floor('B.C09.seek', n, 6)
+
+
+def state_phase(F, R, rule='B.C09.sib', fa=None, fb=None):
+    """Where in `process` a sound can be marked as stopped: in the state phase at the top (the fade finished, the start time
+    can never come, the decoder failed) and, for the end of the data, in the step that consumes the last source frame - not at
+    some later point (the top of the next output frame, the next callback), which would keep a finished sound loaded and its
+    handle saying Playing for longer than the sound lasts."""
+    if fa is None or fb is None:
+        import re as _re
+        a = F.body('<%s as sound::Sound>::process' % ST)
+        b = F.body('<%s as sound::Sound>::process' % SS)
+        if not R.check(a is not None and b is not None, rule, 'anchor:state-phase', 'process siblings not found'):
+            return
+        fa, fb = features(F, a), features(F, b)
+    # state phase: streaming has extra leading/trailing gates; the common subsequence must be the static sequence
+    sa = fa['state_phase_all']
+    sb = [e for e in fb['state_phase_all']]
+    want = ['psm.update', 'mirror', 'start.update', 'mark_stopped', 'mirror', 'start.ne', 'is_advancing']
+    R.check(sa == want, rule, 'state-phase:static', 'static state phase is %s' % sa, detail={'sequence': sa})
+    # streaming: [mark_stopped, mirror] (error gate) + want
+    R.check(sb == ['mark_stopped', 'mirror'] + want, rule, 'state-phase:streaming',
+            'streaming state phase is %s (expected the error gate followed by the static sequence)' % sb, detail={'sequence': sb})
+
+
+def ring_halves(F, R, rule='B.C09.ring'):
+    """What the streaming sound reads from the frame ring does not depend on where the ring wraps: wherever a read chunk is
+    taken apart with as_slices(), both halves are used (the readable region is first half then second half; code that looks
+    at the first half only sees a shorter region whenever the region wraps, e.g. reports a stale position)."""
+    n = 0
+    for b in F.bodies:
+        if b.krate != 'kira':
+            continue
+        for bb, t in b.calls():
+            if not (callee_path(t) or '').endswith('ReadChunk::<\'_, T>::as_slices') and not (callee_path(t) or '').endswith('::as_slices'):
+                continue
+            if 'rtrb' not in (callee_path(t) or ''):
+                continue
+            n += 1
+            dl = t['dest']['l']
+            used = set()
+            for _, pl, kind in b.all_places():
+                if kind == 'use' and pl['l'] == dl and pl['p'] and pl['p'][0][0] == 'field':
+                    used.add(pl['p'][0][1])
+            whole = any(kind == 'use' and pl['l'] == dl and not pl['p'] for _, pl, kind in b.all_places())
+            R.check(whole or {0, 1} <= used, rule, 'both-halves:%s#%d' % (b.path.split('::')[-1], n),
+                    '%s takes a ring-buffer chunk apart with as_slices() and uses only half %s of it: what it reads changes when the readable '
+                    'region wraps around the end of the ring' % (b.path, sorted(used)), detail={'halves_used': sorted(used)}, where=b.where(bb))
+    R.floor(rule, n, 2)
+
+
+def settings_verbatim(F, R, rule='B.C09.sib-data'):
+    """'Given the same audio data and settings': both kinds of sound hand the fade-in tween of their settings to
+    PlaybackStateManager::new as it is."""
+    for owner, key in ((ST, 'static'), (SS, 'streaming')):
+        b = F.body(owner + '::new')
+        if not R.check(b is not None, rule, 'anchor:new:' + key, '%s::new not found' % owner):
+            continue
+        cs = [(bb, t) for bb, t in b.calls() if (callee_path(t) or '').endswith('PlaybackStateManager::new')]
+        d = describe(b, cs[0][1]['args'][0], depth=6, at=cs[0][0]) if len(cs) == 1 else '?'
+        R.check(len(cs) == 1 and d.endswith('.fade_in_tween') and '(' not in d.replace('(*', '').replace('(settings', ''), rule, 'fade-in:' + key,
+                '%s::new builds its PlaybackStateManager from %s, not from the settings\' fade_in_tween as it is' % (owner, d[:100]),
+                detail={'fade_in': d[:100]}, where=b.file)
 
 
 def frame_source(F, R):
